@@ -14,6 +14,14 @@ CLAIMED = {
             "Theorems mutex_excl, mutex_trylock_iff_free, mutex_no_lost_wakeup_safety, mutex_broadcast_wakes_all, mutex_wake_only_suspended, mutex_recursive_release_at_zero hold for every reachable state of Model.Mutex; every explored execution of the hooked runtime under vsched (random/PCT schedules, ULT+tasklet+external callers, static/recursive mutexes) must be accepted by the model event by event, and monitors + deadlock detection look for concrete failures.",
             "Trusted: Lean kernel; sequential consistency of atomics; vsched/hook/projection machinery (vlib/t3.py); liveness only in safety form + explored schedules; futex wake counting not modelled.",
             "DESIGN.md §5 C04"),
+    "C02": ("Lean 4 symbolic-execution proofs over instruction lists regenerated from fcontext_x86_64_sysv_elf_gas.S on every run (translator tools/asmgen.py) + native differential of the real routines against the Lean x86 interpreter",
+            "45 theorems over the generated instruction lists: round trip of callee-saved registers / MXCSR / x87 CW / rsp / return address for every save x restore routine pair, save-before-callback, 16-byte alignment of fresh and saved stacks for every p_stacktop, peek; the instruction semantics and the translator are cross-checked against the CPU by running the tree's assembled routines on random machine states with model-independent canaries. The protocol half (single runner, publish-after-save) is covered by the mutex/wait-list/join models' 'woken only when suspended' theorems and is still being extended.",
+            "Trusted: Lean kernel; x86-64 semantics of the ~25 instruction forms in Model/X86.lean (tested against the CPU); SysV ABI obligations of C callbacks as explicit hypotheses; asmgen.py. Not covered: caller-saved/vector state, ucontext and other architectures.",
+            "DESIGN.md §5 C02"),
+    "C15": ("Lean 4 invariant/refinement proofs (memory-pool partition for all op sequences, stack-geometry arithmetic for all sizes/addresses, tagged-pointer LIFO linearizability for all interleavings) + T2 differential execution of the real ABTI_mem_pool and ULT stack allocation (white-box, ASan; allocation ledger) against the model drivers",
+            "Theorems mempool_partition / no_overlap / alloc_fresh / destroy_returns_all, stack_geom_size / free_inverse / disjoint / align, lifo_linearizable / lifo_no_aba; the models are tied to the code by differential runs with canonical chain dumps and by an allocation ledger on real ULT creation/free over every size residue mod 64 and every 8-byte user-stack offset; regression programs for the two repaired defects (F1, F4) run first.",
+            "Trusted: Lean kernel; each mem-pool operation modelled as atomic (concurrency only in the LIFO model); OS effects of mmap/huge pages/mprotect exercised, not modelled; 64-bit tag wrap of the LIFO assumed not to occur.",
+            "DESIGN.md §5 C15"),
 }
 NOT_YET = "machinery for this property is not built yet (work in progress; see DESIGN.md §10 build order)"
 
